@@ -8,7 +8,7 @@ import astwire
 import implobs
 from gens.programs import Opts, Gen
 
-THEOREMS = []
+THEOREMS = ['full_support_means_readable_partial']
 RULE = ('parseable functions built from every statement form x expression form at the edge of the supported list '
         '(bounded-exhaustive templates: labels, comma expressions, nested unary, casts at each position, assignments / '
         '++ / calls inside if, while, do-while, for conditions, constant operands, compound assignment, non-= '
@@ -150,7 +150,8 @@ def run(ctx):
                 detail = v.get('construct') or v.get('in') or (v.get('warning') or '')[:40]
                 sig = {'kind': v['kind']}
                 if v['kind'] == 'fully-supported-but-not-modellable':
-                    sig['construct'] = v.get('construct')
+                    import re as _re
+                    sig['construct'] = _re.sub(r'UnaryOp \S+ of', 'UnaryOp of', v.get('construct') or '')
                 elif v['kind'] == 'side-effect-in-condition-treated-as-effect-free':
                     sig['in'] = v.get('in')
                 else:
